@@ -210,6 +210,15 @@ class Ctx:
         return results
 
 
+def loop_vars(f, loop):
+    """terms of the target names of a for loop: {name: term}"""
+    out = {}
+    for d in f.defs:
+        if d.node == loop.id and d.kind == 'for':
+            out[d.name] = TermBuilder(f, d.node).def_term(d.id)
+    return out
+
+
 def _as_load(node):
     class L(ast.NodeTransformer):
         def visit_Subscript(self, n):
@@ -297,7 +306,8 @@ def walk_path(f, path, env=None):
         if nd.kind == 'for':
             it = tb.build(st.iter)
             from .core import target_names, item
-            base = ('iter', it, nid)
+            from .core import mk_iter
+            base = mk_iter(it, nid)
             for nm, p, _ in target_names(st.target):
                 t = base
                 for i in p:
